@@ -59,23 +59,15 @@ func KeygenMk(p Proto, ids []party.ID, t int, sid []byte) map[party.ID]Mk {
 		i := i
 		switch p {
 		case FROST:
-			out[id] = func() (protocol.Handler, error) {
-				return protocol.NewMultiHandler(frost.Keygen(Group, id, ids, t), sid)
-			}
+			out[id] = mh(func() protocol.StartFunc { return frost.Keygen(Group, id, ids, t) }, sid)
 		case FROSTTaproot:
-			out[id] = func() (protocol.Handler, error) {
-				return protocol.NewMultiHandler(frost.KeygenTaproot(id, ids, t), sid)
-			}
+			out[id] = mh(func() protocol.StartFunc { return frost.KeygenTaproot(id, ids, t) }, sid)
 		case CMP:
-			out[id] = func() (protocol.Handler, error) {
-				return protocol.NewMultiHandler(cmp.Keygen(Group, id, ids, t, nil), sid)
-			}
+			out[id] = mh(func() protocol.StartFunc { return cmp.Keygen(Group, id, ids, t, nil) }, sid)
 		case Doerner:
 			other := ids[1-i]
 			recv := i == 0
-			out[id] = func() (protocol.Handler, error) {
-				return protocol.NewTwoPartyHandler(doerner.Keygen(Group, recv, id, other, nil), sid, recv)
-			}
+			out[id] = th(func() protocol.StartFunc { return doerner.Keygen(Group, recv, id, other, nil) }, sid, recv)
 		}
 	}
 	return out
@@ -91,27 +83,17 @@ func (m *Material) RefreshMk(sid []byte) map[party.ID]Mk {
 		c := m.Cfg[id]
 		switch m.Proto {
 		case FROST:
-			out[id] = func() (protocol.Handler, error) {
-				return protocol.NewMultiHandler(frost.Refresh(c.(*frost.Config), m.IDs), sid)
-			}
+			out[id] = mh(func() protocol.StartFunc { return frost.Refresh(c.(*frost.Config), m.IDs) }, sid)
 		case FROSTTaproot:
-			out[id] = func() (protocol.Handler, error) {
-				return protocol.NewMultiHandler(frost.RefreshTaproot(c.(*frost.TaprootConfig), m.IDs), sid)
-			}
+			out[id] = mh(func() protocol.StartFunc { return frost.RefreshTaproot(c.(*frost.TaprootConfig), m.IDs) }, sid)
 		case CMP:
-			out[id] = func() (protocol.Handler, error) {
-				return protocol.NewMultiHandler(cmp.Refresh(c.(*cmp.Config), nil), sid)
-			}
+			out[id] = mh(func() protocol.StartFunc { return cmp.Refresh(c.(*cmp.Config), nil) }, sid)
 		case Doerner:
 			other := m.IDs[1-i]
 			if i == 0 {
-				out[id] = func() (protocol.Handler, error) {
-					return protocol.NewTwoPartyHandler(doerner.RefreshReceiver(c.(*doerner.ConfigReceiver), id, other, nil), sid, true)
-				}
+				out[id] = th(func() protocol.StartFunc { return doerner.RefreshReceiver(c.(*doerner.ConfigReceiver), id, other, nil) }, sid, true)
 			} else {
-				out[id] = func() (protocol.Handler, error) {
-					return protocol.NewTwoPartyHandler(doerner.RefreshSender(c.(*doerner.ConfigSender), id, other, nil), sid, false)
-				}
+				out[id] = th(func() protocol.StartFunc { return doerner.RefreshSender(c.(*doerner.ConfigSender), id, other, nil) }, sid, false)
 			}
 		}
 	}
@@ -135,22 +117,14 @@ func (m *Material) SignMk(signers []party.ID, msg []byte, sid []byte, variant Si
 		c := m.Cfg[id]
 		switch m.Proto {
 		case FROST:
-			out[id] = func() (protocol.Handler, error) {
-				return protocol.NewMultiHandler(frost.Sign(c.(*frost.Config), signers, msg), sid)
-			}
+			out[id] = mh(func() protocol.StartFunc { return frost.Sign(c.(*frost.Config), signers, msg) }, sid)
 		case FROSTTaproot:
-			out[id] = func() (protocol.Handler, error) {
-				return protocol.NewMultiHandler(frost.SignTaproot(c.(*frost.TaprootConfig), signers, msg), sid)
-			}
+			out[id] = mh(func() protocol.StartFunc { return frost.SignTaproot(c.(*frost.TaprootConfig), signers, msg) }, sid)
 		case CMP:
 			if variant == SignPresignFull {
-				out[id] = func() (protocol.Handler, error) {
-					return protocol.NewMultiHandler(cmppresign.StartPresign(c.(*cmp.Config), signers, msg, nil), sid)
-				}
+				out[id] = mh(func() protocol.StartFunc { return cmppresign.StartPresign(c.(*cmp.Config), signers, msg, nil) }, sid)
 			} else {
-				out[id] = func() (protocol.Handler, error) {
-					return protocol.NewMultiHandler(cmp.Sign(c.(*cmp.Config), signers, msg, nil), sid)
-				}
+				out[id] = mh(func() protocol.StartFunc { return cmp.Sign(c.(*cmp.Config), signers, msg, nil) }, sid)
 			}
 		case Doerner:
 			var other party.ID
@@ -161,13 +135,9 @@ func (m *Material) SignMk(signers []party.ID, msg []byte, sid []byte, variant Si
 			}
 			switch cc := c.(type) {
 			case *doerner.ConfigReceiver:
-				out[id] = func() (protocol.Handler, error) {
-					return protocol.NewTwoPartyHandler(doerner.SignReceiver(cc, id, other, msg, nil), sid, true)
-				}
+				out[id] = th(func() protocol.StartFunc { return doerner.SignReceiver(cc, id, other, msg, nil) }, sid, true)
 			case *doerner.ConfigSender:
-				out[id] = func() (protocol.Handler, error) {
-					return protocol.NewTwoPartyHandler(doerner.SignSender(cc, id, other, msg, nil), sid, true)
-				}
+				out[id] = th(func() protocol.StartFunc { return doerner.SignSender(cc, id, other, msg, nil) }, sid, true)
 			}
 		}
 	}
@@ -180,9 +150,7 @@ func (m *Material) PresignMk(signers []party.ID, sid []byte) map[party.ID]Mk {
 	signers = sortedIDs(signers)
 	for _, id := range signers {
 		c := m.Cfg[id].(*cmp.Config)
-		out[id] = func() (protocol.Handler, error) {
-			return protocol.NewMultiHandler(cmp.Presign(c, signers, nil), sid)
-		}
+		out[id] = mh(func() protocol.StartFunc { return cmp.Presign(c, signers, nil) }, sid)
 	}
 	return out
 }
@@ -193,9 +161,7 @@ func (m *Material) PresignOnlineMk(pre map[party.ID]*ecdsa.PreSignature, msg []b
 	for id, ps := range pre {
 		c := m.Cfg[id].(*cmp.Config)
 		ps := ps
-		out[id] = func() (protocol.Handler, error) {
-			return protocol.NewMultiHandler(cmp.PresignOnline(c, ps, msg, nil), sid)
-		}
+		out[id] = mh(func() protocol.StartFunc { return cmp.PresignOnline(c, ps, msg, nil) }, sid)
 	}
 	return out
 }
@@ -450,4 +416,43 @@ func (m *Material) OwnID(id party.ID) party.ID {
 		return c.ID
 	}
 	return ""
+}
+
+// ---- start-function reuse ----
+//
+// An application may build a protocol.StartFunc once and hand it to NewMultiHandler again when it
+// retries a session. Constructors built inside Reusing() do exactly that: every call of the same Mk
+// passes the SAME StartFunc value to a new handler.
+
+var reuseStart bool
+
+// Reusing builds handler constructors whose start functions are created once and reused.
+func Reusing(build func() map[party.ID]Mk) map[party.ID]Mk {
+	reuseStart = true
+	defer func() { reuseStart = false }()
+	return build()
+}
+
+func startOnce(mk func() protocol.StartFunc) func() protocol.StartFunc {
+	reuse := reuseStart
+	var cached protocol.StartFunc
+	return func() protocol.StartFunc {
+		if !reuse {
+			return mk()
+		}
+		if cached == nil {
+			cached = mk()
+		}
+		return cached
+	}
+}
+
+func mh(mk func() protocol.StartFunc, sid []byte) Mk {
+	sf := startOnce(mk)
+	return func() (protocol.Handler, error) { return protocol.NewMultiHandler(sf(), sid) }
+}
+
+func th(mk func() protocol.StartFunc, sid []byte, leader bool) Mk {
+	sf := startOnce(mk)
+	return func() (protocol.Handler, error) { return protocol.NewTwoPartyHandler(sf(), sid, leader) }
 }
